@@ -423,6 +423,7 @@ def units(w):
         it.check("post:gcd(a, 0) = |a| and gcd(a, b) = gcd(b, a mod b)", r == z3.If(b == 0, zabs(a), GCD(b, pymod(a, b))))
         it.check("post:never-negative-and-positive-unless-both-arguments-are-0", z3.And(r >= 0, z3.Implies(z3.Or(a != 0, b != 0), r > 0)))
     U.append(Unit("nodes.py::NodeDerefInvoke.evaluate", s_gcd, p_gcd, name="math.ckl::gcd[real module source, all ints, induction on |b|]",
+                  config={"max_unroll": 6},      # (a loop of the interpreted function over symbolic values is outside this unit's reach: undecided at once)
                   replay=replay_lang([("require Math; Math->gcd(4, -6)", "2"), ("require Math; Math->gcd(-4, 6)", "2"), ("require Math; Math->gcd(0, -5)", "5"),
                                       ("require Math; Math->gcd(0, 0)", "0"), ("require Math; Math->gcd(12, 18)", "6")])))
 
